@@ -9,8 +9,8 @@ from ..evidence import Run, canon_hash
 
 PID = "C12"
 SHARDS = {"quick": 8, "thorough": 16}
-SHARD_TIMEOUT = {"quick": 600, "thorough": 1700}
-N_RANDOM = {"quick": 150, "thorough": 8000}
+SHARD_TIMEOUT = {"quick": 600, "thorough": 2400}
+N_RANDOM = {"quick": 150, "thorough": 6000}
 MAX_CAUSES = 4
 
 
